@@ -6,7 +6,7 @@ import regen
 
 
 def gen_cases(ctx):
-    n = 2000 if ctx.quick else 30000
+    n = 2000 if ctx.quick else 120000
     # a quarter of the values come from a pool over every value kind (tools/richvalues.py); the 4th output field
     # (value_to_string of every bound value, from the implementation) gives the oracle their literals
     lines = qcommon.gen_statement_cases(ctx, n, no_marks=True, rich_values=400 if ctx.quick else 3000)
